@@ -49,20 +49,30 @@ fn set_limits() {
     }
 }
 
+fn process_cpu_ms() -> u64 {
+    let mut ts = libc::timespec { tv_sec: 0, tv_nsec: 0 };
+    unsafe { libc::clock_gettime(libc::CLOCK_PROCESS_CPUTIME_ID, &mut ts) };
+    ts.tv_sec as u64 * 1000 + ts.tv_nsec as u64 / 1_000_000
+}
+
+/// The deadline of a case is measured in CPU time of this (single-threaded) worker, so that a loaded machine cannot
+/// turn a slow case into a reported hang; a wall-clock backstop of 12x the deadline catches a worker that blocks.
 fn start_watchdog() {
     std::thread::spawn(|| {
         let mut last_seq = u64::MAX;
         let mut since = Instant::now();
+        let mut cpu_since = process_cpu_ms();
         loop {
             std::thread::sleep(Duration::from_millis(50));
             let seq = CASE_SEQ.load(Ordering::Relaxed);
             if seq != last_seq {
                 last_seq = seq;
                 since = Instant::now();
+                cpu_since = process_cpu_ms();
                 continue;
             }
             let dl = CASE_DEADLINE_MS.load(Ordering::Relaxed);
-            if dl > 0 && since.elapsed() > Duration::from_millis(dl) && seq != 0 {
+            if dl > 0 && seq != 0 && (process_cpu_ms().saturating_sub(cpu_since) > dl || since.elapsed() > Duration::from_millis(dl * 12)) {
                 emit(json!({"t":"hang","phase":CUR_PHASE.load(Ordering::Relaxed),"index":CUR_INDEX.load(Ordering::Relaxed),"stage":current_stage()}));
                 unsafe { libc::_exit(3) };
             }
